@@ -336,6 +336,11 @@ def run(ck):
     m = min(n, nscripts)
     for r in core.pmap("vf.props.c17:work_e2e", [{"scripts": specs[i::m]} for i in range(m)], timeout=3000):
         ck.merge(r)
+    # (3) several tracing blocks in one interpreter sharing a logger / a Config object while the filter changes
+    from vf.props import sessions
+
+    sessions.run_into(ck, "C17", 32 if quick else 400)
+    ck.need("session_blocks", 200)
     ck.need("files_stdlib", 1000, "fewer than 1000 files under the stdlib root")
     ck.need("files_site-packages", 1000, "fewer than 1000 files under site-packages")
     ck.need("loaded_functions", 1000)
@@ -352,6 +357,8 @@ def run(ck):
         "all function code objects reachable from loaded modules, user files incl. symlinked/relative paths and synthetic names, each "
         "judged against an independent os.path oracle; allow-lists of 0..3 names each in their own interpreter; code-equal twins in both "
         "orders. (2) generated scripts run with `monkeytype run` under the default config, allow-lists and custom filters; rows read back. "
+        "(3) sessions of 6 tracing blocks in one interpreter through trace_calls (one logger object) and monkeytype.trace (one Config object) with a "
+        "different custom filter (or none) per block: logged functions == called & accepted per block. "
         "distinct = (allow-list, root, directory) / (mode, functions called, accepted)",
         assumptions=["the path oracle (os.path.realpath/commonpath over sysconfig roots) is the reference", "the filter reads only co_filename"],
         exhaustive=True,
